@@ -103,6 +103,8 @@ def reach():
                 continue
             if k.startswith("probe.fault_") and not fault_arm:
                 continue
+            if k == "fault.lock.timeout":
+                continue  # fires only if the code under test uses timed locks (nitro does not; mutants/benign variants do)
             if prop == "C09" and k == "probe.records_through_sequence_sink":
                 continue  # C09 runs use the mt sinks only
             if prop in ("C13",) and k in ("probe.parse_after_bad_alloc",):
